@@ -201,6 +201,14 @@ func c06Vectors() [][]uint32 {
 	return out
 }
 
+// c06Early is an execution in which ClusterName panicked before it reached the
+// map iteration (so the execution has no map order).
+type c06Early struct {
+	choices []int
+	d       int
+	msg     string
+}
+
 type c06PermResult struct {
 	choices []int
 	order   []int    // iteration order as cluster indices
@@ -209,7 +217,7 @@ type c06PermResult struct {
 
 // c06Explore runs ClusterName for source value d under every map order (or, in
 // replay, under the listed ones) and stores the selected names.
-func c06Explore(cfg *v2.Router, n, total, d int, perms [][]int, replay bool, res map[string]*c06PermResult, problems *[]string) (execs int, complete bool) {
+func c06Explore(cfg *v2.Router, n, total, d int, perms [][]int, replay bool, res map[string]*c06PermResult, problems *[]string, early *[]c06Early) (execs int, complete bool) {
 	var got string
 	var panicked interface{}
 	var calls int
@@ -245,6 +253,10 @@ func c06Explore(cfg *v2.Router, n, total, d int, perms [][]int, replay bool, res
 		pr := res[k]
 		if pr == nil {
 			order, ok := c06Order(n, r.Choices)
+			if !ok && panicked != nil {
+				*early = append(*early, c06Early{choices: append([]int{}, r.Choices...), d: d, msg: fmt.Sprint(panicked)})
+				return
+			}
 			if !ok {
 				*problems = append(*problems, fmt.Sprintf("choice sequence %v is not a map order of %d keys (unexpected choice points in ClusterName)", r.Choices, n))
 				return
@@ -321,19 +333,29 @@ func c06CheckVector(p *vreport.Part, c c06RouteCase) {
 	}
 	res := map[string]*c06PermResult{}
 	var problems []string
+	var early []c06Early
 	execs := 0
 	for d := 0; d < 2*total; d++ {
-		e, complete := c06Explore(cfg, n, total, d, c.Perms, c.Replay, res, &problems)
+		ne := len(early)
+		e, complete := c06Explore(cfg, n, total, d, c.Perms, c.Replay, res, &problems, &early)
 		execs += e
 		if !complete {
 			problems = append(problems, "exploration incomplete")
 		}
-		if !c.Replay && e != c06Fact(n) {
+		if !c.Replay && e != c06Fact(n) && len(early) == ne {
 			problems = append(problems, fmt.Sprintf("weights %v source value %d: %d executions, expected %d! = %d map orders", w, d, e, n, c06Fact(n)))
 		}
 	}
 	p.EvalN(execs)
 	p.AddTraces(execs)
+	for _, ep := range early {
+		p.Outcome("panic")
+		p.Violation("route weighted_clusters: ClusterName panics", fmt.Sprintf("weights %v total %d, source value %d: %s (before the cluster map is iterated)", w, total, ep.d, ep.msg),
+			c06RouteCase{Weights: w, Perms: [][]int{ep.choices}, Replay: true, Draw: ep.d})
+	}
+	if len(early) > 0 && len(problems) == 0 {
+		return // no complete set of executions to count over
+	}
 	if !c.Replay && len(res) != c06Fact(n) {
 		problems = append(problems, fmt.Sprintf("weights %v: %d distinct map orders seen, expected %d", w, len(res), c06Fact(n)))
 	}
@@ -481,16 +503,17 @@ func TestVerifC06RouteWeights(t *testing.T) {
 			for _, d := range []int{0, 3, 5} {
 				r1, r2 := map[string]*c06PermResult{}, map[string]*c06PermResult{}
 				var pb []string
-				c06Explore(cfg, 3, 6, d, nil, false, r1, &pb)
+				var el []c06Early
+				c06Explore(cfg, 3, 6, d, nil, false, r1, &pb, &el)
 				for _, pr := range r1 {
-					c06Explore(cfg, 3, 6, d, [][]int{pr.choices}, true, r2, &pb)
+					c06Explore(cfg, 3, 6, d, [][]int{pr.choices}, true, r2, &pb, &el)
 				}
 				for k, pr := range r1 {
 					if r2[k] == nil || r2[k].sel[d] != pr.sel[d] || fmt.Sprint(r2[k].order) != fmt.Sprint(pr.order) {
 						pb = append(pb, fmt.Sprintf("replay of map order %v draw %d differs", pr.choices, d))
 					}
 				}
-				if len(r1) != 6 || len(pb) > 0 {
+				if len(r1) != 6 || len(pb) > 0 || len(el) > 0 {
 					vreport.HarnessError("C06", "route-weights", fmt.Sprintf("determinism self-check failed: orders=%d problems=%v", len(r1), pb))
 					p.End(false, "self-check failed", "")
 					return
